@@ -3,7 +3,7 @@
    Store.PebbleIter (pkg/db iterator.go/db.go/reader.go), specification: Store.DiffDBSpec. *)
 From Coq Require Import List NArith ZArith Bool.
 From LE Require Import Base.Lex Store.SMap Store.PebbleIter Store.PebbleIterProofs Store.DiffDB Store.DiffDBProofs
-  Store.DiffDBScanProofs Store.DiffDBSpec Store.DiffDBRefine.
+  Store.DiffDBScanProofs Store.DiffDBSpec Store.DiffDBRefine Chain.BlockStore Chain.U32 Chain.HeightIndex.
 Import ListNotations.
 
 (* For every initial database, every root prefix and EVERY sequence of get/has/set/del/range/iterate/snapshot/
@@ -86,6 +86,27 @@ Theorem C12_lex_total_order : forall a b c,
   (ltb a b = true -> ltb b c = true -> ltb a c = true) /\ ltb a a = false /\
   (a <> b -> ltb a b = true \/ ltb b a = true) /\ (leb a b = true -> leb b a = true -> a = b).
 Proof. intros. repeat split; eauto using ltb_trans, ltb_irrefl, ltb_total, leb_antisym. Qed.
+
+(* bytes.FromUint32 keys are ordered like the numbers, and the use made of Range by liskbft/util.go
+   (getBFTParams, getGeneratorKeys: Range(FromUint32(0), FromUint32(h), 1, reverse)) returns, through any view and
+   any staged state, the entry of the greatest height <= h, or nothing when there is none *)
+Theorem C12_u32be_order : forall a b, (a < 4294967296 -> b < 4294967296 -> lex_cmp (u32be a) (u32be b) = (a ?= b))%N.
+Proof. exact u32be_cmp. Qed.
+
+Theorem C12_range_latest_at_or_below : forall db c m pfx h,
+  sorted db -> sorted m -> Inv db c -> (forall k, lookup m k = overlay db c k) ->
+  height_keyed m pfx -> (h < 4294967296)%N ->
+  match fst (db_Range db c pfx (u32be 0) (u32be h) 1 true) with
+  | [] => forall n v, (n < 4294967296)%N -> In (pfx ++ u32be n, v) m -> (h < n)%N
+  | [(k, v)] => exists n, (n < 4294967296)%N /\ k = u32be n /\ In (pfx ++ u32be n, v) m /\ (n <= h)%N /\
+                         forall n' v', (n' < 4294967296)%N -> In (pfx ++ u32be n', v') m -> (n' <= h)%N -> (n' <= n)%N
+  | _ => False
+  end.
+Proof.
+  intros db c m pfx h Hsdb Hsm HI Hm Hk Hh.
+  rewrite (proj1 (range_refines db c m pfx (u32be 0) (u32be h) 1 true Hsdb Hsm HI Hm)).
+  apply latest_at_or_below; assumption.
+Qed.
 
 (* non-vacuity: a concrete run with staged delete + limit, prefix views, snapshot/restore *)
 Local Open Scope N_scope.
